@@ -16,8 +16,12 @@ def run_jobs(ctx, binary, jobs, clause_map, nontrivial):
     def one(j):
         sc, kw = j
         return dataplane.run_one(binary, sc, **kw)
+    import time as _t
+    t0 = _t.time()
     obs = runner.pmap(one, jobs)
+    t1 = _t.time()
     verdicts, st = dataplane.judge(obs)
+    ctx.tlc_jobs.append({"job": "real runs (materialise, run, read back)", "runs": len(jobs), "wall_s": round(t1 - t0, 1)})
     ctx.states += st["distinct"]; ctx.transitions += st["generated"]
     ctx.tlc_jobs.append({"job": "Trace_Data verdicts", "records": len(obs), "wall_s": round(st["wall"], 2)})
     for (sc, kw), o, v in zip(jobs, obs, verdicts):
